@@ -258,8 +258,8 @@ func c14RunScript(c *evid.Ctx, sc c14Script, seed int64) {
 		if sc.Method == "StoreLogs-waiting" || sc.Method == "DeleteRange-waiting" {
 			// the op blocks by itself on the pending rotation; "parking" is the rotation goroutine
 			park = preRot
+			w := ctl.ParkAt("op", "awaitRotation.wait", 0) // armed before the op starts: it may get there at once
 			startOp()
-			w := ctl.ParkAt("op", "awaitRotation.wait", 0)
 			if !w.WaitReached(c14Watchdog) {
 				c.Inconclusive("script %v: StoreLogs never waited for the pending rotation", sc)
 				w.Release()
@@ -306,8 +306,8 @@ func c14RunScript(c *evid.Ctx, sc c14Script, seed int64) {
 	case "close-flagged-rotation-exits-first":
 		// a writer waits for a pending rotation; Close has set its flag but not taken the lock;
 		// the rotation goroutine gets the lock first, sees the flag and exits; then Close runs
-		startOp()
 		wp := ctl.ParkAt("op", "awaitRotation.wait", 0)
+		startOp()
 		if !wp.WaitReached(c14Watchdog) {
 			c.Inconclusive("script %v: the writer never waited for the pending rotation", sc)
 			wp.Release()
